@@ -537,9 +537,18 @@ func (s *transactionStore) Watch(ctx context.Context, ch chan<- configapi.Transa
 					if ctx.Err() != nil {
 						return
 					}
-					ch <- configapi.TransactionEvent{
+					select {
+					case ch <- configapi.TransactionEvent{
 						Type:        configapi.TransactionEvent_REPLAYED,
 						Transaction: *transaction,
+					}:
+					case <-ctx.Done():
+						close(ch)
+						go func() {
+							for range eventCh {
+							}
+						}()
+						return
 					}
 				}
 			} else {
@@ -584,9 +593,18 @@ func (s *transactionStore) Watch(ctx context.Context, ch chan<- configapi.Transa
 						transaction := entry.Value
 						transaction.Version = uint64(entry.Version)
 						transaction.ID.Index = configapi.Index(entry.Index)
-						ch <- configapi.TransactionEvent{
+						select {
+						case ch <- configapi.TransactionEvent{
 							Type:        configapi.TransactionEvent_REPLAYED,
 							Transaction: *transaction,
+						}:
+						case <-ctx.Done():
+							close(ch)
+							go func() {
+								for range eventCh {
+								}
+							}()
+							return
 						}
 					}
 				}
@@ -596,7 +614,16 @@ func (s *transactionStore) Watch(ctx context.Context, ch chan<- configapi.Transa
 		for {
 			select {
 			case event := <-eventCh:
-				ch <- event
+				select {
+				case ch <- event:
+				case <-ctx.Done():
+					close(ch)
+					go func() {
+						for range eventCh {
+						}
+					}()
+					return
+				}
 			case <-ctx.Done():
 				close(ch)
 				go func() {
